@@ -433,6 +433,10 @@ def hyp_cases(draw, tier):
             "prior_abort": draw(st.sampled_from([0, 0, 0, 1]))}
 
 
+# (what round 8 added to the case domain; part of the evidence text)
+RULE_ROUND8 = ' One generated forest in 20 (60 in the thorough tier) is a BIG one (gen.big_specs: a child list of 11..300 nodes, that many clones of one data object, more than 256 nodes), with node references aimed at notable positions of the long child lists. (width <= 130 in the mutate-export part). to_dotfile(<path>) also onto an existing, longer file.'
+RULE = RULE + RULE_ROUND8
+
 PARTS = [
     Part("exports", run, strategy=lambda tier: hyp_cases(tier), n={"quick": 1500, "thorough": 150000}),
     Part("export-mutate-export", run_requery, strategy=lambda tier: requery_cases(tier), n={"quick": 300, "thorough": 20000}),
